@@ -27,7 +27,7 @@ prop( 'C05', [ 'S-STATUS', 'D-VALIDATE', 'W-ATTR', 'T-ALLOWED', 'T-TYPENAMES', '
       not_decided='that values read back equal the converted values written (value/history dependent).',
       technique='constant typestate on a statement CFG with exception edges; dominance / must-pass-through with correlated branches; service feasibility by test folding; table interval containment' )
 
-prop( 'C12', [ 'T-CLIENT-TYPES', 'P-BUNDLE', 'P-FRESH', 'T-PATHSYNTAX', 'S-COMPLETE', 'T-OPOFFSET', 'T-PATHDEFAULTS', 'F-CLIENT', 'T-OPVALUES', 'K-TIMEOUT', 'K-VALIDATE', 'T-ATTROPS', 'T-METHODS', 'W-STRIPSET', 'T-OPTYPE', 'W-ASSERT', 'K-REPLIES', 'T-OPTEXT', 'K-DETAILS', 'K-READVAL', 'T-FRAGTEXT', 'K-TARGETS', 'K-SEQUENCE' ],
+prop( 'C12', [ 'T-CLIENT-TYPES', 'P-BUNDLE', 'P-FRESH', 'T-PATHSYNTAX', 'S-COMPLETE', 'T-OPOFFSET', 'T-PATHDEFAULTS', 'F-CLIENT', 'T-OPVALUES', 'K-TIMEOUT', 'K-VALIDATE', 'T-ATTROPS', 'T-METHODS', 'W-STRIPSET', 'T-OPTYPE', 'W-ASSERT', 'K-REPLIES', 'T-OPTEXT', 'K-DETAILS', 'K-READVAL', 'T-FRAGTEXT', 'K-TARGETS', 'K-SEQUENCE', 'W-LATEBIND', 'T-PATHCOMP' ],
       decides='T-OPVALUES: the effective options of the reader that splits a write\'s value list are comma separator, double-quote quoting and skipinitialspace (blank-padded lists mean the values they spell).  T-PATHSYNTAX also: format_path emits an element index at the component it follows (the symbolic branch flushes a pending index), so Foo[1].Boo formats and parses back to the same segments.  P-BUNDLE: in connector.issue the keep-collecting condition conjoins the size test with equality of both route_path and '
               'send_path with those of the bundle, every yielded record carries ( index, sender_context ) of its wire request, sender_context is '
               'always derived from index, and index advances at most once per operation and after every flushed bundle; T-PATHSYNTAX: every '
@@ -75,7 +75,7 @@ prop( 'C03', [ 'W-ATTR', 'D-VALIDATE', 'R-SNAPSHOT', 'D-TYPE', 'T-TYPENAMES', 'T
       not_decided='read-your-writes over request histories, slice index arithmetic, symbolic-name resolution, per-element isolation (value/history dependent).',
       technique='who-may-write analysis via service feasibility on the CFG; AST shape checks; table checks' )
 
-prop( 'C06', [ 'X-SERVICES', 'P-REPLYBIT', 'P-ONE', 'P-PROCEED', 'D-ECHO', 'S-STATUS', 'P-ROUTE', 'E-REPLY', 'T-CONTEXT', 'P-EACH', 'U-NULLADDR', 'R-REENTRANT', 'W-ITERDEL', 'P-MATCH' ],
+prop( 'C06', [ 'X-SERVICES', 'P-REPLYBIT', 'P-ONE', 'P-PROCEED', 'D-ECHO', 'S-STATUS', 'P-ROUTE', 'E-REPLY', 'T-CONTEXT', 'P-EACH', 'U-NULLADDR', 'R-REENTRANT', 'W-ITERDEL', 'P-MATCH', 'S-STANDIN' ],
       decides='X-SERVICES: for Object, Message_Router, Connection_Manager and Logix the registered service parsers, the services '
               'request() dispatches and the services produce() encodes agree, and every *_RPY constant is *_REQ | 0x80; '
               'P-REPLYBIT: on every path of every handler to the reply producer the reply bit is set at most once, exactly once on '
@@ -174,7 +174,7 @@ prop( 'C11', [ 'X-LOOKUP', 'X-FROMREGEX', 'X-TERMINAL', 'G-PRIMS', 'X-ENCODER' ]
       technique='must-pass-through ordering over a statement CFG (lookup precedence); decision tables evaluated three-valued over '
                 'finite boolean domains; semantic evaluation of the ordering key; AST idioms with role-following wildcards' )
 
-prop( 'C02', [ 'G-CHUNK', 'G-FRAME', 'P-ACT', 'P-ONE', 'P-CHAIN', 'R-ISO', 'N-RECV', 'R-SENT', 'R-PROGRESS', 'G-PRIMS', 'E-CONTAIN', 'R-DECIDE', 'P-SEPARATORS', 'K-RELEASE' ],
+prop( 'C02', [ 'G-CHUNK', 'G-FRAME', 'P-ACT', 'P-ONE', 'P-CHAIN', 'R-ISO', 'N-RECV', 'R-SENT', 'R-PROGRESS', 'G-PRIMS', 'E-CONTAIN', 'R-DECIDE', 'P-SEPARATORS', 'K-RELEASE', 'W-LATEBIND' ],
       decides='P-ACT also: on the branch where the client\'s non-blocking receive returned nothing ( <rcvd> is None, source empty ) the framing-engine loop is unreachable - a poll between two chunks of one frame cannot destroy the framing.  G-CHUNK: in the stream-fed machines (enip_machine incl. enip_header; tnet_machine) no state has both an input edge and a '
               'None edge and no transition predicate inspects the source - i.e. no state\'s successor depends on whether the next byte has '
               'arrived yet (necessary for chunk independence); G-FRAME: the header sub-graph is the single unconditional chain of the six '
@@ -190,7 +190,7 @@ prop( 'C02', [ 'G-CHUNK', 'G-FRAME', 'P-ACT', 'P-ONE', 'P-CHAIN', 'R-ISO', 'N-RE
       technique='grammar-graph extraction by abstract interpretation of the builder code + edge-kind analysis; path effect counting and '
                 'must-pass-through on the CFG; AST idiom matching on the framework loops' )
 
-prop( 'C07', [ 'A-OFFSETS', 'P-ORDER', 'P-EACH', 'P-CLOSURE', 'R-LOCK-5', 'R-LOCK-6', 'P-FRESH', 'P-BUNDLE', 'S-RESOLVE', 'D-PATHSTOP', 'S-STATUS', 'R-STATELESS', 'D-OWNPATH', 'S-LONE', 'P-ROUTEFIRST', 'P-ONCE', 'D-NOSUCH', 'W-ASSERT', 'S-PHASE' ],
+prop( 'C07', [ 'A-OFFSETS', 'P-ORDER', 'P-EACH', 'P-CLOSURE', 'R-LOCK-5', 'R-LOCK-6', 'P-FRESH', 'P-BUNDLE', 'S-RESOLVE', 'D-PATHSTOP', 'S-STATUS', 'R-STATELESS', 'D-OWNPATH', 'S-LONE', 'P-ROUTEFIRST', 'P-ONCE', 'D-NOSUCH', 'W-ASSERT', 'S-PHASE', 'S-STANDIN' ],
       decides='P-EACH / P-CLOSURE also ( one member cannot take its neighbours with it ): the per-member dispatch in Message_Router.request and the per-member parse in the closure are each protected inside their member loop ( defect AM, repaired: an unsupported service used to fail the whole bundle, an unparseable member used to truncate it silently ).  D-OWNPATH: see C05.  A-OFFSETS: the two offset-table emitters of Message_Router.produce and the two slice bounds of the parser closure '
               'normalise (linear-expression normaliser) to 2 + 2*N relative to the running offset, the count field is the number of '
               'offsets, members are sliced between consecutive offsets (last to the end) and appended in order; P-ORDER: in both produce '
@@ -214,7 +214,7 @@ prop( 'C08', [ 'G-PROGRESS', 'G-BOUND', 'G-REF', 'R-PROGRESS', 'R-LIMIT', 'E-CON
       not_decided='wall-clock bounds, recursion depth of nested bundles, memory, that other sessions keep being served (scheduling).',
       technique='SCC/cycle analysis with a consumption model over extracted grammar graphs; reference resolution; CFG typestate; zero-count call rules' )
 
-prop( 'C10', [ 'G-BOUND', 'G-REF', 'R-LIMIT', 'R-SENT', 'R-REPEAT', 'G-PRIMS', 'G-LIMITS', 'G-GATE', 'T-SEGMENTS', 'G-PEEK', 'W-ASSERT', 'R-DECIDE' ],
+prop( 'C10', [ 'G-BOUND', 'G-REF', 'R-LIMIT', 'R-SENT', 'R-REPEAT', 'G-PRIMS', 'G-LIMITS', 'G-GATE', 'T-SEGMENTS', 'G-PEEK', 'W-ASSERT', 'R-DECIDE', 'G-PADPOS' ],
       decides='G-LIMITS: every CPF item parser and every CIP command parser created from the dispatch tables carries the constant limit naming the length parsed ahead of it ( no sibling exempted ), and no limit is hung on a state that consumes nothing.  G-BOUND: every unbounded consumer (element loop, ".*" string, raw-to-end payload) of every run-root machine lies inside a '
               'limit naming a parsed length or a constant, or is the tail of a machine run on a finite buffer (one documented exemption: '
               'the unrecognised CPF item, which is not given a limit); G-REF: each of the ~1250 data-path references in limit=/repeat=/'
@@ -255,7 +255,7 @@ prop( 'C13', [ 'S-COMPLETE', 'P-MATCH', 'P-FRESH', 'P-BUNDLE', 'P-DISCARD', 'P-A
       not_decided='behaviour at each byte offset of a cut - the rules show that every failure kind has a raising/terminating path, not what the kernel delivers.',
       technique='sibling cross-check of drivers (counter feed analysis); dominance on the CFG; guard-shape matching; call-site protection (lexical with/try)' )
 
-prop( 'C15', [ 'B-ROUTE', 'D-REFUSE', 'C-MAIN', 'S-STATUS', 'T-SEGMENTS', 'P-BUNDLE', 'T-ROUTETEXT', 'K-ROUTEKEY', 'W-ASSERT', 'W-CLASSSTATE' ],
+prop( 'C15', [ 'B-ROUTE', 'D-REFUSE', 'C-MAIN', 'S-STATUS', 'T-SEGMENTS', 'P-BUNDLE', 'T-ROUTETEXT', 'K-ROUTEKEY', 'W-ASSERT', 'W-CLASSSTATE', 'T-PORTLINK' ],
       decides='K-ROUTEKEY: the gateway routing table is written under the key function it is read with ( the same format string over device.port_link\'s canonical segment ).  B-ROUTE: the boolean acceptance expression guarding local dispatch in UCMM.request (including its enclosing '
               '`if self.route_path is not None`) is evaluated on every cell of the finite abstract domain - configured personality in '
               '{None, False, 0, [], one-segment list, two-segment list with an address link} x request route path in {absent, empty, equal, '
